@@ -86,6 +86,7 @@ type TypeSpec struct {
 	Guarded map[string]string // field -> mutex field
 	LockInv map[string][]Clause // mutex field -> invariants over `self`
 	Stable  map[string][]Clause // mutex field -> two-state invariants (old = state at the previous release/acquisition)
+	WaitCond map[string][]Clause // mutex field -> predicates that cond.Wait loops on this mutex wait to become false
 	CondOn  map[string]string   // field holding a *sync.Cond -> mutex field it is bound to
 	Invs    []Clause
 	Pkg     string
@@ -764,6 +765,17 @@ func (ss *SpecSet) ParseSpecFile(file, pkgPath string) error {
 			f := strings.SplitN(rest, " ", 2)
 			lab, body := splitLabel(f[1])
 			curT.LockInv[f[0]] = append(curT.LockInv[f[0]], Clause{lab, mustExpr(file, lno, body), body})
+		case "waitcond":
+			// waitcond MUTEX [label] expr  -- the predicate waiters on the condition variable of MUTEX wait to become false
+			if curT == nil {
+				panic(fmt.Errorf("%s:%d: waitcond outside type", file, lno))
+			}
+			f := strings.SplitN(rest, " ", 2)
+			lab, body := splitLabel(f[1])
+			if curT.WaitCond == nil {
+				curT.WaitCond = map[string][]Clause{}
+			}
+			curT.WaitCond[f[0]] = append(curT.WaitCond[f[0]], Clause{lab, mustExpr(file, lno, body), body})
 		case "stable":
 			if curT == nil {
 				panic(fmt.Errorf("%s:%d: stable outside type", file, lno))
